@@ -84,7 +84,6 @@ from numpy import (
     sin,
     cos,
     arccos,
-    arcsin,
     arctan2,
     sqrt,
     rad2deg,
@@ -798,7 +797,7 @@ def sdss2eq(clambda_in, ceta_in, dtype="f8"):
     z = sin(ceta + _sdsspar["etapole"]) * cos(clambda)
 
     ra = arctan2(y, x) + _sdsspar["node"]
-    dec = arcsin(z)
+    dec = arctan2(z, sqrt(x * x + y * y))
 
     ra *= R2D
     dec *= R2D
